@@ -31,6 +31,7 @@ type Case struct {
 	Root      string `json:"root"` // as given to FileImportLocator (relative to the harness cwd or $BASE-absolute)
 	Path      string `json:"path"`
 	ViaImport bool   `json:"via_import"` // through `import "<path>" as x` instead of Resolve
+	Pre       []string `json:"pre,omitempty"` // paths resolved on the SAME locator first (their results are judged like every other); whatever they leave behind in the locator must not open the root
 	ViaCLI    bool   `json:"via_cli,omitempty"` // the locator is the one cli/tool's interpreter configures for -dir <root> (CreateRuntimeProvider)
 }
 
@@ -156,6 +157,22 @@ func runCase(c Case) *hx.Failure {
 	var err error
 	var fail *hx.Failure
 
+	for _, pp := range c.Pre {
+		var pc string
+		var perr error
+		if f := hx.Guard(func() { pc, perr = il.Resolve(pp) }); f != nil {
+			return f
+		}
+		if perr == nil && strings.HasPrefix(pc, prefix) {
+			if loc := strings.TrimSuffix(strings.TrimPrefix(pc, prefix), "\"\n"); !inside(ar, loc) {
+				return hx.Failf("escape", "root=%q (=%s) path=%q (resolved first) returned the content of %s which lies outside the root", c.Root, ar, pp, loc)
+			}
+		}
+	}
+	if len(c.Pre) > 0 {
+		hx.E.Class("locator.used-before", 1)
+	}
+
 	if !c.ViaImport {
 		fail = hx.Guard(func() { content, err = il.Resolve(c.Path) })
 	} else {
@@ -187,7 +204,7 @@ func runCase(c Case) *hx.Failure {
 			nontrivial = true
 		}
 	}
-	key := fmt.Sprintf("%s|%s|%v|%v", c.Root, c.Path, c.ViaImport, c.ViaCLI)
+	key := fmt.Sprintf("%s|%s|%v|%v|%q", c.Root, c.Path, c.ViaImport, c.ViaCLI, c.Pre)
 	if c.ViaCLI {
 		hx.E.Class("route.cli-configured-locator", 1)
 	}
@@ -262,6 +279,12 @@ func TestExhaustive(t *testing.T) {
 				if !yield(Case{Root: r, Path: p}) {
 					return false
 				}
+				// the same locator used before: paths that clean to the root itself, inside files, refused paths
+				if (len(p)+ri)%3 == 0 {
+					if !yield(Case{Root: r, Path: p, Pre: preLists[(len(p)/3+ri)%len(preLists)]}) {
+						return false
+					}
+				}
 				// every 5th path also through the interpreter
 				if (len(p)+ri)%5 == 0 {
 					if !yield(Case{Root: r, Path: p, ViaImport: true}) {
@@ -293,6 +316,8 @@ func TestExhaustive(t *testing.T) {
 	_ = total
 }
 
+var preLists = [][]string{{""}, {"."}, {"r/.."}, {"f"}, {"../f"}, {"r/f", "../f"}, {"..", "f"}, {"r x/../..", "r/f"}, {"x.y", "x.y"}, {"../r/f"}}
+
 var extraSegs = []string{"f", "r", ".", "..", "", "r x", "x.y", "...", "..f", "f..", ". .", " ", "..\\", "\\..", "~", "%2e%2e", "..%2f", "l6", "l5", "\x00", "é", "..\t", "r\\..\\..", "C:", "*"}
 
 func TestProp(t *testing.T) {
@@ -320,6 +345,10 @@ func TestProp(t *testing.T) {
 			}
 		}
 		via := rapid.IntRange(0, 5).Draw(rt, "via")
-		return Case{Root: root, Path: strings.Join(parts, "/"), ViaImport: via == 0, ViaCLI: via == 1}
+		c := Case{Root: root, Path: strings.Join(parts, "/"), ViaImport: via == 0, ViaCLI: via == 1}
+		if rapid.IntRange(0, 2).Draw(rt, "pre") == 0 {
+			c.Pre = rapid.SampledFrom(preLists).Draw(rt, "prelist")
+		}
+		return c
 	}, runCase)
 }
